@@ -23,7 +23,7 @@ def report():
                      meta.get("summary", "")[:160].replace("\n", " ").replace("|", "/")))
     out = ["# Seeded changes vs checks (quick tier, latest recorded run of each)", "",
            "Each change compiles, passes the repository's 112 tests and breaks the named property (demo.py).",
-           "m, n, r, s, t = first ... fifth round of sub-agents (each round was told what the earlier ones had done and asked for subtler changes).", "",
+           "m, n, r, s, t, u = first ... sixth round of sub-agents (each round was told what the earlier ones had done and asked for subtler changes).", "",
            "| change | result | what it does |", "|---|---|---|"]
     out += [f"| {a} | {b} | {c} |" for a, b, c in rows]
     (SEEDED / "MATRIX.md").write_text("\n".join(out) + "\n")
